@@ -407,14 +407,51 @@ func CheckC03(h *History) []Violation {
 			field = "record-payload"
 		}
 		opID := -1
+		var wop *OpResult
 		for _, o := range h.Ops {
 			if o.PreWrites <= i && i < o.PostWrites {
 				opID = o.Op.ID
+				wop = o
 			}
 		}
-		v.add("C03", "malformed-file", "field="+field+" size="+sizeClass(len(w.Data)), opID,
+		sig := "field=" + field
+		img, _ := readCdrFile(w.Data)
+		if field == "record-payload" && img != nil && img.BadRecord != nil && len(img.BadRecord) > 65535 && wop != nil {
+			// a record larger than the 16-bit CdrLength can express: say how it came about
+			// the culprit is the op whose containers took the record past 65535 bytes
+			sizes := containerSizes(img.BadRecord)
+			total := 0
+			for _, n := range sizes {
+				total += n
+			}
+			cum := len(img.BadRecord) - total // everything that is not a usage container
+			culprit, own := wop, 0
+		scan:
+			for _, o := range h.Ops {
+				mine := 0
+				for _, c := range o.Reported {
+					mine += sizes[int64(c.Seq)]
+				}
+				if mine == 0 {
+					continue
+				}
+				cum += mine
+				if cum > 65535 {
+					culprit, own = o, mine
+					break scan
+				}
+			}
+			cause := "record-grew-past-limit"
+			if own > 65535-1024 {
+				cause = "single-request-exceeds-record"
+			}
+			sig = "field=record-payload oversize op=" + culprit.Op.Kind + " cause=" + cause
+		}
+		v.add("C03", "malformed-file", sig, opID,
 			"write #%d of %s (%d bytes, op %d): %s", i, w.Path, len(w.Data), opID, strings.Join(errs, "; "))
-		return v.list
+		if len(v.list) >= 4 {
+			return v.list
+		}
 	}
 	return v.list
 }
